@@ -249,6 +249,24 @@ func recognisedGroup(names []string) bool {
 	return false
 }
 
+// carriedProps counts the attributes of d for which the configuration writes vertex properties
+func carriedProps(d Desc) int {
+	n := 0
+	for _, a := range d.Attrs {
+		named := false
+		for _, w := range tableOf(d) {
+			if w.Dim == a.Dim && w.Attr == a.Name {
+				named = true
+			}
+		}
+		unspec := d.Kind == "default" || (d.Kind == "custom" && d.Unspec)
+		if named || (unspec && !(a.Dim == 2 && a.Name == "TexCoord")) {
+			n++
+		}
+	}
+	return n
+}
+
 // effective table of a description (for the fail-key rule only)
 func tableOf(d Desc) []Writer {
 	if d.Kind == "custom" {
@@ -316,6 +334,12 @@ func makeCase(d Desc) hx.Case {
 				}
 			}
 		}
+	}
+	// a configuration that writes no vertex property at all for n >= 1 vertices: the ASCII writer then emits no
+	// vertex lines and ply.ReadMesh cannot read the file back (observed defect, see notes/C04.md; the generator
+	// avoids this class, the key marks it when it comes from a replay or the corpus)
+	if d.N >= 1 && carriedProps(d) == 0 {
+		c.FailKey = "ply:ascii-vertex-without-properties"
 	}
 	// known finding: an 8-bit scalar property (dimension-1 writer of type uchar that qualifies) — ASCII reads it raw
 	if d.N >= 1 {
@@ -519,6 +543,20 @@ func genDesc(r *hx.Rng) Desc {
 	default:
 		d.Kind = "custom"
 		genCustom(r, &d)
+	}
+	// every configuration must write at least one vertex property (see carriedProps)
+	if carriedProps(d) == 0 {
+		if hasAttr(d, 3, "Position") {
+			d.Kind, d.Unspec, d.Writers = "default", true, nil
+		} else {
+			integral := false
+			for _, w := range tableOf(d) {
+				if w.Dim == 3 && w.Attr == "Position" && w.Type == "int" {
+					integral = true
+				}
+			}
+			d.Attrs = append(d.Attrs, Attr{3, "Position", genRows(r, d.N, 3, false, integral)})
+		}
 	}
 	return d
 }
